@@ -602,3 +602,21 @@ func expandPredicates(p *Prog, fn *Fn, alts [][]condAtom) [][]ctxAtom {
 	}
 	return out
 }
+
+// blockAlwaysLeaves: the block's last statement is a return, a branch (continue/break/goto) or a panic call.
+func blockAlwaysLeaves(b *ast.BlockStmt) bool {
+	if b == nil || len(b.List) == 0 {
+		return false
+	}
+	switch x := b.List[len(b.List)-1].(type) {
+	case *ast.ReturnStmt, *ast.BranchStmt:
+		return true
+	case *ast.ExprStmt:
+		if call, ok := x.X.(*ast.CallExpr); ok {
+			if id, ok := call.Fun.(*ast.Ident); ok && id.Name == "panic" {
+				return true
+			}
+		}
+	}
+	return false
+}
